@@ -400,4 +400,12 @@ func init() {
 		Old:    "func (process *Process) finishedRule(rule Rule, prefix, suffix string, re *RuntimeEnvironment) {\n",
 		New:    "func (process *Process) finishedRule(rule Rule, prefix, suffix string, re *RuntimeEnvironment) {\n\tre.Quiet = rule == PRINT\n",
 		Expect: "plain-store#1-to-RuntimeEnvironment.Quiet"})
+	addFixture(Fixture{Name: "select-hands-over-the-wrong-channel", Rule: "R-PAIRING", File: "process/transition.go",
+		Old:    "\t\tmessage := Message{Rule: BRA, Channel1: process.Providers[0], Label: f.label}",
+		New:    "\t\tmessage := Message{Rule: BRA, Channel1: f.to_c, Label: f.label}",
+		Expect: "provider-handed-over-to-CaseForm"})
+	addFixture(Fixture{Name: "wait-repeats-itself", Rule: "R-STEP-PROGRESS", File: "process/transition.go",
+		Old:    "\t\tprocess.Body = f.continuation_e\n\n\t\tprocess.finishedRule(CLS, \"[wait, client]\", \"c\", re)",
+		New:    "\t\tprocess.Body = f\n\n\t\tprocess.finishedRule(CLS, \"[wait, client]\", \"c\", re)",
+		Expect: "(*process.WaitForm).Transition$1 | Transition:body-store"})
 }
